@@ -419,4 +419,8 @@ def run(tier):
     for pr_ in gp_:
         rep.unprovable("C15.message|grammar-cross-check", pr_)
     rules_C14.prefilters(P, g_, rep, prefix="C15.message|quoted-text-not-judged")
+    import rules_C02
+    rules_C02.byte_operand_dropped(P, rep, "C15.silent|byte-operand", "a line that is at fault (`.byte nosuch`, `.byte 1/0`, `.byte \"x\"`) is ignored instead of failing the build with its number")
+    import rules_C09
+    rules_C09.expansion_is_deferred(P, rep, "C15.message|macro-body-order", "every .message/.warning that comes out of a macro body is appended after all messages of the file: source order A, B(body), C gives A, C, B")
     return rep
